@@ -12,6 +12,7 @@ RULE = ('spike vectors on a small time grid (int64/uint64/float64 times, spikes 
         'requested lists with unknown and repeated ids, subset on/off; exhaustive tiny grids first, '
         'then random. The output is random: the Lean executable decides the C17 predicate on the real '
         'output; where no sub-selection is needed the output is also compared with the model. '
+        'Also: grids given as arrays, grids of up to 300 bounds with up to 100 kept chunks given as narrow NumPy integers, spike times not in id order, earlier calls on the same selector whose results the caller modifies in place. '
         'non-trivial = some requested cluster has >= 1 eligible spike')
 ASSUMPTIONS = ['np.random.choice(ids, n, replace=False) returns n distinct elements of ids (its contract '
                'is a hypothesis of the theorem); NumPy global RNG seeded per case for replay']
